@@ -110,6 +110,7 @@ type Unit struct {
 	curAnc         map[int]bool
 	nodeAnc        map[int]map[int]bool
 	freshErrs      []Term
+	assignCover    map[string]bool
 }
 
 func (u *Unit) note(format string, a ...any) { u.notes[fmt.Sprintf(format, a...)] = true }
@@ -418,6 +419,7 @@ type loopInfo struct {
 	spec    *LoopSpec
 	bound   int // 0 => invariant mode
 	variant Term
+	autoFrame []string
 }
 
 type node struct {
@@ -951,7 +953,13 @@ func (u *Unit) cutHeader(fn *ssa.Function, n *node, st *State, top bool) *State 
 	if l.spec != nil {
 		for _, g := range l.spec.Ghosts {
 			st = st.clone()
-			u.setHeap(st, loopGhostHeap(fn, l, g.Name), SInt, u.evalSpecInt(g.Init, st, fn, l))
+			gs := u.ty.sortOf(g.goType(u.eng, fn.Pkg.Pkg))
+			if strings.TrimSpace(g.Init) == "any" {
+				u.heapSort[loopGhostHeap(fn, l, g.Name)] = gs
+				st.heaps[loopGhostHeap(fn, l, g.Name)] = u.s.fresh("lg_"+g.Name, gs)
+			} else {
+				u.setHeap(st, loopGhostHeap(fn, l, g.Name), gs, u.evalSpecInt(g.Init, st, fn, l))
+			}
 		}
 	}
 	// inv.init
@@ -975,7 +983,30 @@ func (u *Unit) cutHeader(fn *ssa.Function, n *node, st *State, top bool) *State 
 	oldAlloc := u.alloc(st)
 	if l.spec != nil {
 		for _, g := range l.spec.Ghosts {
-			out.heaps[loopGhostHeap(fn, l, g.Name)] = u.s.fresh("lg_"+g.Name, SInt)
+			out.heaps[loopGhostHeap(fn, l, g.Name)] = u.s.fresh("lg_"+g.Name, u.ty.sortOf(g.goType(u.eng, fn.Pkg.Pkg)))
+		}
+	}
+	// automatic frame invariants: heaps the unit's contract does not allow to change on
+	// pre-existing objects stay unchanged on them throughout the loop
+	l.autoFrame = nil
+	if !u.pass1 && u.con != nil && u.con.HasFrame {
+		var ks []string
+		for k := range u.loopMods[loopKey(fn, l.ordinal)] {
+			ks = append(ks, k)
+		}
+		sort.Strings(ks)
+		for _, k := range ks {
+			rec := u.loopMods[loopKey(fn, l.ordinal)][k]
+			if k == "alloc" || strings.HasPrefix(k, "lg$") || strings.HasPrefix(k, "visited$") || strings.HasPrefix(k, "g$") || strings.HasPrefix(k, "G$") {
+				continue
+			}
+			if !strings.HasPrefix(string(rec.sort), "(Array Int ") || u.coveredByAssigns(k) {
+				continue
+			}
+			l.autoFrame = append(l.autoFrame, k)
+			u.heapSort[k] = rec.sort
+			goal := u.frameUnchanged(st, k)
+			u.oblige(st, "inv.init", fmt.Sprintf("loop%d.frame$%s", l.ordinal, mangle(k)), fn.Name(), goal, n.b.Instrs[0].Pos())
 		}
 	}
 	if !u.pass1 {
@@ -1012,6 +1043,9 @@ func (u *Unit) cutHeader(fn *ssa.Function, n *node, st *State, top bool) *State 
 			break
 		}
 		u.s.assume(implies(out.reach, u.ty.rangeFact(out.regs[p], p.Type(), u.alloc(out))))
+	}
+	for _, k := range l.autoFrame {
+		u.s.assume(implies(out.reach, u.frameUnchangedPat(out, k)))
 	}
 	if l.spec != nil {
 		for _, inv := range l.spec.Invariants {
@@ -1056,8 +1090,11 @@ func (u *Unit) keepEdge(fn *ssa.Function, n *node, e *edge, top bool) {
 			steps = append(steps, u.evalSpecInt(g.Step, pre, fn, l))
 		}
 		for i, g := range l.spec.Ghosts {
-			tmp.heaps[loopGhostHeap(fn, l, g.Name)] = u.s.define("lgstep", SInt, steps[i])
+			tmp.heaps[loopGhostHeap(fn, l, g.Name)] = u.s.define("lgstep", u.ty.sortOf(g.goType(u.eng, fn.Pkg.Pkg)), steps[i])
 		}
+	}
+	for _, k := range l.autoFrame {
+		u.oblige(tmp, "inv.keep", fmt.Sprintf("loop%d.frame$%s", l.ordinal, mangle(k)), fn.Name(), u.frameUnchanged(tmp, k), n.b.Instrs[len(n.b.Instrs)-1].Pos())
 	}
 	for _, inv := range l.spec.Invariants {
 		goal := u.evalSpecBool(inv.Expr, tmp, fn, l)
@@ -1072,4 +1109,41 @@ func (u *Unit) keepEdge(fn *ssa.Function, n *node, e *edge, top bool) {
 			u.oblige(tmp, "decreases", fmt.Sprintf("loop%d", l.ordinal), fn.Name(), and(sx("<", after, before), sx(">=", before, "0")), n.b.Instrs[len(n.b.Instrs)-1].Pos())
 		}
 	}
+}
+
+// frameUnchanged: objects that existed at unit entry are unchanged in heap k.
+func (u *Unit) frameUnchanged(st *State, k string) Term {
+	cur := u.heap(st, k, u.heapSort[k])
+	old := u.heap(u.entry, k, u.heapSort[k])
+	if cur == old {
+		return "true"
+	}
+	return fmt.Sprintf("(forall ((r Int)) (=> (and (<= r %s) (>= r 0)) (= (select %s r) (select %s r))))", u.alloc(u.entry), cur, old)
+}
+
+func (u *Unit) frameUnchangedPat(st *State, k string) Term {
+	cur := u.heap(st, k, u.heapSort[k])
+	old := u.heap(u.entry, k, u.heapSort[k])
+	if cur == old {
+		return "true"
+	}
+	return fmt.Sprintf("(forall ((r Int)) (! (=> (and (<= r %s) (>= r 0)) (= (select %s r) (select %s r))) :pattern ((select %s r))))", u.alloc(u.entry), cur, old, cur)
+}
+
+// coveredByAssigns: the unit's contract lets heap k change on pre-existing objects.
+func (u *Unit) coveredByAssigns(k string) bool {
+	if u.assignCover == nil {
+		u.assignCover = map[string]bool{}
+		env := u.newEnv(u.entry, u.entry, u.top, u.eng.contractPkg(u.con))
+		for _, a := range u.con.Assigns {
+			loc := u.parseAssign(env, a)
+			if loc.kind == "freshfield" {
+				continue
+			}
+			for _, h := range loc.heap {
+				u.assignCover[h] = true
+			}
+		}
+	}
+	return u.assignCover[k]
 }
